@@ -408,7 +408,11 @@ METHODS = ['_shift_settings_idx', 'ljust', 'rjust', 'center', 'assign_str',
            dict(py='__next__', iter=True, lean='iterStep', after_target='settings',
                 entry=[('current_settings', 'slist'), ('settings', 'point'), ('with_assertions', 'bool')]),
            dict(py='apply_formatting', lean='applyCore', after='_scrub_ansi_settings', join=True,
-                entry=[('ansi_settings', 'slist'), ('start', 'int'), ('end', 'int'), ('topmost', 'bool')])]
+                entry=[('ansi_settings', 'slist'), ('start', 'int'), ('end', 'int'), ('topmost', 'bool')]),
+           dict(py='__getitem__', lean='getItemCore', after_store='new_s._s', join=True,
+                entry=[('new_s', 'obj'), ('st', 'int'), ('en', 'int')]),
+           dict(py='remove_formatting', lean='removeCore', after_store='if:ansi_settings', join=True,
+                entry=[('ansi_settings', 'optslist'), ('start', 'int'), ('end', 'int')])]
 
 
 def generate_methods(repo):
@@ -419,8 +423,15 @@ def generate_methods(repo):
     fns = {f.name: f for f in class_methods(tree, 'AnsiString')}
     pfns = {f.name: f for f in class_methods(tree, '_AnsiSettingPoint')}
     ifns = {f.name: f for f in class_methods(tree, '_AnsiSettingsIterator')}
+    wa = False              # the class constant AnsiString.WITH_ASSERTIONS as shipped
+    for n in ast.walk(tree):
+        if isinstance(n, ast.ClassDef) and n.name == 'AnsiString':
+            for st in n.body:
+                if isinstance(st, ast.Assign) and len(st.targets) == 1 and isinstance(st.targets[0], ast.Name) \
+                        and st.targets[0].id == 'WITH_ASSERTIONS' and isinstance(st.value, ast.Constant):
+                    wa = bool(st.value.value)
     L = ['/-  GENERATED by harness/translate.py (harness/pyobj.py) from the working tree of the repository — do not edit.',
          '    Methods of `class AnsiString` that read and write `_s` / `_fmts`, translated statement by statement. -/',
          'import AnsiModel.Obj', 'import AnsiModel.Replay', 'import AnsiModel.Generated.Wrappers', '', 'namespace Gen', '',
-         pyobj.translate(fns, METHODS, pfns, ifns), 'end Gen', '']
+         pyobj.translate(fns, METHODS, pfns, ifns, wa, have=('pointBool',)), 'end Gen', '']
     return '\n'.join(L)
